@@ -998,11 +998,16 @@ func (y *ifFeatureEval) factor() bool {
 	// identifier-ref-arg: [prefix ":"] identifier
 	name := tok
 	if i := strings.IndexByte(tok, ':'); i >= 0 {
-		if !y.knownPrefix(tok[:i]) {
+		prefix := tok[:i]
+		name = tok[i+1:]
+		if !isIdentifier(prefix) || !y.knownPrefix(prefix) {
 			y.fail()
 			return false
 		}
-		name = tok[i+1:]
+	}
+	if !isIdentifier(name) {
+		y.fail()
+		return false
 	}
 	_, found := y.features[name]
 	return found
@@ -1026,6 +1031,23 @@ func (y *ifFeatureEval) knownPrefix(prefix string) bool {
 		}
 	}
 	return false
+}
+
+// isIdentifier implements RFC 7950 Sec 6.2: (ALPHA / "_") *(ALPHA / DIGIT / "_" / "-" / ".")
+func isIdentifier(s string) bool {
+	for i := 0; i < len(s); i++ {
+		c := s[i]
+		switch {
+		case c >= 'a' && c <= 'z', c >= 'A' && c <= 'Z', c == '_':
+		case c >= '0' && c <= '9', c == '-', c == '.':
+			if i == 0 {
+				return false
+			}
+		default:
+			return false
+		}
+	}
+	return len(s) > 0
 }
 
 func (y *ifFeatureEval) end() bool {
